@@ -87,9 +87,8 @@ def _op_agg(o, variant):
     return o[0] == "agg" and o[1] == T + "Op::" + variant
 
 
-def r2(ctx, cfg):
+def r2(ctx, cfg, R="C06.R2"):
     F, P = cfg.facts, cfg.prov
-    R = "C06.R2"
     for name, variant, fields in (("set", "Set", ("key", "value")), ("remove", "Delete", ("key",))):
         f = ctx.need_fn(R, ST + name)
         if f is None:
@@ -234,9 +233,8 @@ def r3(ctx, cfg):
                    sample="storage.%s(%s)" % (m, ", ".join(args[1:])))
 
 
-def r4(ctx, cfg):
+def r4(ctx, cfg, R="C06.R4"):
     F, P = cfg.facts, cfg.prov
-    R = "C06.R4"
     key = ST + "get"
     f = ctx.need_fn(R, key)
     if f is None:
@@ -282,9 +280,8 @@ def r4(ctx, cfg):
             ctx.ob(R, key, inst, ok, "get returns %s" % rets, fn=f, sample=str(rets)[:160])
 
 
-def r5(ctx, cfg):
+def r5(ctx, cfg, R="C06.R5"):
     F, P = cfg.facts, cfg.prov
-    R = "C06.R5"
     key = ST + "range"
     f = ctx.need_fn(R, key)
     if f is None:
